@@ -308,7 +308,12 @@ Record srec := { s_op : cop; s_res : list N;
                  s_raw : list (list N) }. (* packed raw (garbage) keys *)
 Record case := { c_keys : list (N * list N);   (* key domain: (partition, packed series key) *)
                  c_steps : list srec;
-                 c_final : list N }.      (* bhash of bytes [5,size) of the segment of partitions 0..7 *)
+                 c_final : list N;        (* bhash of bytes [5,size) of the segment of partitions 0..7 *)
+                 c_mode : N }.
+(** [c_mode = 1]: "segment roll-over" histories (a partition's first 4 MiB segment is filled with
+    ~64 KiB keys so that entries land in segment 0001).  The model has one segment per
+    partition and the key bytes are not shipped (keys are interned as short placeholders), so
+    such a case is judged by the trace ORACLE only; the model comparison is skipped. *)
 
 Definition keydom := list (N * key).
 Definition kth (K : keydom) (i : N) : N * key := nth (N.to_nat i) K (0, []).
@@ -437,9 +442,20 @@ Fixpoint steps_ok (K : keydom) (prev : list N) (issued : list N) (owners : list 
       && steps_ok K B (B ++ s_res r ++ issued) owners' T' rest
   end.
 
+(** mode 1: keys are interned by their position in the domain *)
+Fixpoint number_keys (i : N) (l : list (N * list N)) : keydom :=
+  match l with
+  | [] => []
+  | pk :: r => (fst pk, [i]) :: number_keys (i + 1) r
+  end.
+
 Definition check (c : case) : verdict :=
-  let K := map (fun pk => (fst pk, unpack (snd pk))) (c_keys c) in
-  let '(sm, s) := steps_same K init_file (map (fun _ => 0) K) [] (c_steps c) in
-  let same := sm && Ns_eqb (c_final c) (map (fun p => bhash (seg (s p))) [0; 1; 2; 3; 4; 5; 6; 7]) in
+  let K := if c_mode c =? 1 then number_keys 0 (c_keys c)
+           else map (fun pk => (fst pk, unpack (snd pk))) (c_keys c) in
+  let same :=
+    if c_mode c =? 1 then true
+    else
+      let '(sm, s) := steps_same K init_file (map (fun _ => 0) K) [] (c_steps c) in
+      sm && Ns_eqb (c_final c) (map (fun p => bhash (seg (s p))) [0; 1; 2; 3; 4; 5; 6; 7]) in
   let ok := steps_ok K (map (fun _ => 0) K) [] [] [] (c_steps c) in
   judge same ok.
